@@ -2,4 +2,5 @@ pub mod gc;
 pub mod hexlab;
 pub mod multi;
 pub mod prefixes;
+pub mod script;
 pub mod twin;
